@@ -11,7 +11,7 @@ ASSUME = ["OpenMLS and NIP-44 are symbolic in the model (assumptions A1-A8 of DE
           "the hand-written client model (Model.Client) is validated by correspondence on this run's histories only",
           "wrapper timestamps are fixed by the schedule through the verif-hooks created_at override; event ids, authenticators and rumor ids are observed and mapped to small numbers by first occurrence"]
 
-def run(prop, tier, seed, t0, H, second=None):
+def run(prop, tier, seed, t0, H, second=None, second_engine=None):
     """`second(prop, tier, seed, H, ob, facts, built)` → dict(failures, coverage, assumptions, trusted, checker): a second engine of the
     same property (C06 / C08: the `wrap` engine), merged into the one verdict and the one evidence file"""
     module = MODULES[prop]
@@ -85,6 +85,10 @@ def run(prop, tier, seed, t0, H, second=None):
             assume = ASSUME + c02win.ASSUMPTIONS
     else:
         coverage = {"evaluations": 1, "distinct_nontrivial": 0, "rule": rule, "samples": ["build failed"]}
+    assume = list(assume)
+    if second_engine is not None and built and os.path.exists(C.DRV):
+        # a second engine of the same property (C06: the ffi engine); it adds obligations, failures, coverage and assumptions
+        assume += second_engine(ob, facts, failures, coverage, tier, seed)
     coverage["axioms_used"] = H.axiom_summary(axioms)
     checker = f"cd lean && lake build {module} mdkdrv && lake env lean .lake/audit/{prop}_axioms.lean; ./check {prop} --tier {tier}"
     assume, trusted = list(assume), H.TRUSTED + [f"axioms actually used: {H.axiom_summary(axioms)}"]
